@@ -37,7 +37,7 @@ def last_pos(keys, pred):
 
 def match_asc_ok(k1: int, k2: int, k3: int, k4: int, k5: int, v: int) -> bool:
     """
-    pre: k1 < k2 < k3 < k4 < k5
+    pre: k1 <= k2 <= k3 <= k4 <= k5
     post: _
     """
     # sorted ascending, match_type 1: the last key not greater than the lookup value
@@ -47,7 +47,7 @@ def match_asc_ok(k1: int, k2: int, k3: int, k4: int, k5: int, v: int) -> bool:
 
 def match_desc_ok(k1: int, k2: int, k3: int, k4: int, k5: int, v: int) -> bool:
     """
-    pre: k1 > k2 > k3 > k4 > k5
+    pre: k1 >= k2 >= k3 >= k4 >= k5
     post: _
     """
     # sorted descending, match_type -1: the last key not smaller than the lookup value
